@@ -1,6 +1,7 @@
 package main
 
 import (
+	"strconv"
 	"fmt"
 	"sort"
 	"strings"
@@ -425,8 +426,12 @@ func runC17(r *Run) {
 							class = "go-name-of-json-tagged-root-field"
 						}
 					}
-				case rd.K == "map" || rd.K == "list" || rd.K == "maps" || rd.K == "arr":
-					class = "root-data-not-a-struct"
+				case rd.K == "list" || rd.K == "arr":
+					if _, err := strconv.Atoi(n); err == nil {
+						class = "root-data-sequence-index"
+					}
+				case rd.K == "map" || rd.K == "maps":
+					class = "root-data-typed-map"
 				}
 				r.Fail("EnvMap disagrees with Lookup", map[string]string{"oracle": "envmap-agrees", "class": class},
 					map[string]any{"root_map": descScope(rootMap), "root_data": rootData.Desc(), "ops": descOps(ops), "name": n,
